@@ -89,6 +89,9 @@ class Table:
     self.t[name] = {"kind": kind, "parent": parent, "host": host, "top_sig": top_sig, "level": level, "field": field}
 
 
+BB_COUNT = [0]
+
+
 def touch_signal(rng, sig, name, shape, host, tab, B):
   """touch sub-objects the way connections / update blocks would; record their expected names"""
   def rec(obj, nm, sh, top_name, budget):
@@ -97,10 +100,15 @@ def touch_signal(rng, sig, name, shape, host, tab, B):
       for _ in range(rng.randrange(0, 3)):
         lo = rng.randrange(n); hi = rng.randrange(lo + 1, n + 1)
         k = rng.random()
+        # an index / a bound may be given as a Bits constant (s.x[LO:HI] with LO = Bits8(4)): same object, same name as with ints
+        bb = rng.random() < 0.3
+        from pymtl3 import Bits as _Bits
+        mkb = (lambda v: _Bits(max(8, int(v).bit_length() + 1), v)) if bb else (lambda v: v)
+        if bb: BB_COUNT[0] += 1
         if k < 0.3:
-          sl = obj[lo]; snm = f"{nm}[{lo}:{lo + 1}]"
+          sl = obj[mkb(lo)]; snm = f"{nm}[{lo}:{lo + 1}]"
         else:
-          sl = obj[lo:hi]; snm = f"{nm}[{lo}:{hi}]"
+          sl = obj[mkb(lo):mkb(hi)] if rng.random() < 0.6 else (obj[lo:mkb(hi)] if rng.random() < 0.5 else obj[mkb(lo):hi]); snm = f"{nm}[{lo}:{hi}]"
           if k > 0.6 and hi - lo >= 2:     # slice of slice -> normalised, parent is the unsliced signal
             a = rng.randrange(hi - lo); b = rng.randrange(a + 1, hi - lo + 1)
             tab.add(snm, "slice", nm, host, top_name, field=snm[len(nm.rsplit('.', 1)[0]) + 1:])
@@ -216,6 +224,7 @@ def run_case(sh, case):
     B = S.Builder(f"n{sh.idx}_{case}", True)
     rng = mkrng(*seedkey, "build")       # identical touches in both elaborations
     top = GC(rng, items, "s", tab, B, 0)
+    sh.count("bits_typed_slice_bounds", BB_COUNT[0]); BB_COUNT[0] = 0
     tab.add("s", "component", None, "s", None, 0, "s")
     try:
       top.elaborate()
